@@ -1176,6 +1176,13 @@ class Interp:
                     len(self.registered) + 2))
         finally:
             self.dstack.pop()
+        if nested and e is None and self.enabled:
+            # the nested assignment returned normally with dispatching on:
+            # it has released everything that was pending at that moment
+            # (also events that nobody listens to any more)
+            for r in self.dstack:
+                if r['type'] == 'release':
+                    r['drained'] = len(self.queue)
         if not nested:
             self.check_release(rec, e)
         self.finish(e, 'enable')
@@ -1225,10 +1232,12 @@ class Interp:
             for q in queue[:cut]:
                 self.judge_token(q, stable, rec, full=True)
             self.half.add(last['token'])
-            self.queue = queue[cut + 1:]
+            self.queue = queue[max(cut + 1, rec.get('drained', 0)):]
             pos = 'first' if cut == 0 else (
                 'last' if cut == len(queue) - 1 else 'middle')
             self.probes['fault_pos.' + pos] += 1
+        elif rec.get('drained'):
+            self.queue = queue[rec['drained']:]
         # tokens appended during the window (dispatched after a nested
         # disable) are already in self.queue's tail
         for q in self.queue:
